@@ -170,7 +170,7 @@ func runC12(c *Ctx, r *Rec) {
 		})
 	}
 	r.count("type assertions", nA)
-	r.floor("D2-checked-assertions", 3)
+	r.floor("D2-checked-assertions", 1)
 
 	// ---- D3 error tokens become diagnostics
 	errTok := c.Pkgs["cdcn"].Types.Scope().Lookup("ErrorToken")
@@ -365,59 +365,105 @@ func checkScanLoop(c *Ctx, r *Rec, info *types.Info, st *scanTables) {
 	construct := c.fdName(st.scanFD) + "/scan-loop"
 	loop := st.scanLoop
 	// condition:  cursor < len(runes)
-	cond, ok := ast.Unparen(loop.Cond).(*ast.BinaryExpr)
-	if !ok || cond.Op != token.LSS {
-		r.undecided("D4-scan-loop", construct, c.pos(loop.Pos()), "the scan loop condition is not `cursor < len(input)`")
-		return
+	var cursor *types.Var
+	if cond, ok := ast.Unparen(loop.Cond).(*ast.BinaryExpr); ok && loop.Cond != nil {
+		switch cond.Op {
+		case token.LSS:
+			cursor = selectorField(info, cond.X)
+		case token.GTR:
+			cursor = selectorField(info, cond.Y)
+		}
 	}
-	cursor := selectorField(info, cond.X)
 	if cursor == nil {
-		r.undecided("D4-scan-loop", construct, c.pos(loop.Pos()), "the scan loop does not test a cursor field")
+		r.skip("D4-scan-loop", construct, c.pos(loop.Pos()), "the scan loop condition is not `cursor field < len(input)`")
 		return
 	}
-	// body: a single tagless switch; every non-default clause is a call of the matching method; default leaves the loop
+	var viol []string
+	// leaves: the statement list leaves the scan loop on every path that reaches its end
+	leavesLoop := func(list []ast.Stmt) bool {
+		for _, s := range list {
+			switch b := s.(type) {
+			case *ast.BranchStmt:
+				if b.Tok == token.BREAK {
+					return true
+				}
+			case *ast.ReturnStmt:
+				return true
+			}
+		}
+		return false
+	}
 	var sw *ast.SwitchStmt
 	if len(loop.Body.List) == 1 {
 		sw, _ = loop.Body.List[0].(*ast.SwitchStmt)
 	}
-	if sw == nil || sw.Tag != nil || st.foundFD == nil {
-		r.undecided("D4-scan-loop", construct, c.pos(loop.Pos()), "the scan loop body is not one tagless switch over calls of the matching method (a data-driven scan loop would have to be re-bound)")
+	switch {
+	case st.foundFD == nil:
+		r.skip("D4-scan-loop", construct, c.pos(loop.Pos()), "the per-type matching method could not be bound")
 		return
-	}
-	var viol []string
-	for _, cl := range sw.Body.List {
-		cc := cl.(*ast.CaseClause)
-		if cc.List == nil {
-			// default: must leave the loop on every path
-			leaves := false
-			for _, s := range cc.Body {
-				switch b := s.(type) {
-				case *ast.BranchStmt:
-					if b.Tok == token.BREAK && b.Label != nil {
+	case sw != nil && sw.Tag == nil:
+		// body: a single tagless switch; every non-default clause is a call of the matching method; default leaves the loop
+		for _, cl := range sw.Body.List {
+			cc := cl.(*ast.CaseClause)
+			if cc.List == nil {
+				leaves := false
+				for _, s := range cc.Body {
+					switch b := s.(type) {
+					case *ast.BranchStmt:
+						if b.Tok == token.BREAK && b.Label != nil {
+							leaves = true
+						}
+					case *ast.ReturnStmt:
 						leaves = true
 					}
-				case *ast.ReturnStmt:
-					leaves = true
 				}
+				if !leaves {
+					viol = append(viol, "the default arm (no token matches) does not leave the loop: an illegal character is retried forever")
+				}
+				continue
 			}
-			if !leaves {
-				viol = append(viol, "the default arm (no token matches) does not leave the loop: an illegal character is retried forever")
-			}
-			continue
-		}
-		if len(cc.Body) > 0 {
-			for _, s := range cc.Body {
-				if b, ok := s.(*ast.BranchStmt); ok && b.Tok == token.CONTINUE {
-					continue
+			for _, e := range cc.List {
+				call, ok := ast.Unparen(e).(*ast.CallExpr)
+				if !ok || c.declOf(calleeOf(info, call)) != st.foundFD {
+					viol = append(viol, "a scan arm is not a call of the matching method: "+exprStr(e))
 				}
 			}
 		}
-		for _, e := range cc.List {
-			call, ok := ast.Unparen(e).(*ast.CallExpr)
-			if !ok || c.declOf(calleeOf(info, call)) != st.foundFD {
-				viol = append(viol, "a scan arm is not a call of the matching method: "+exprStr(e))
+	case st.tableLoop != nil:
+		// data-driven: for _, t := range table { if found(t) { continue scanning } }; then leave the loop
+		var after []ast.Stmt
+		for i, s := range loop.Body.List {
+			if s == ast.Stmt(st.tableLoop) {
+				after = loop.Body.List[i+1:]
 			}
 		}
+		if after == nil {
+			r.skip("D4-scan-loop", construct, c.pos(loop.Pos()), "the loop over the table of token types is not at the top level of the scan loop")
+			return
+		}
+		if !leavesLoop(after) {
+			// a break or return somewhere after the table loop (under a "nothing matched" test) also leaves
+			nested := false
+			for _, s := range after {
+				inspectNoLit(s, func(x ast.Node) bool {
+					switch b := x.(type) {
+					case *ast.BranchStmt:
+						if b.Tok == token.BREAK {
+							nested = true
+						}
+					case *ast.ReturnStmt:
+						nested = true
+					}
+					return true
+				})
+			}
+			if !nested {
+				viol = append(viol, "when no token type of the table matches the scan loop is not left: an illegal character is retried forever")
+			}
+		}
+	default:
+		r.skip("D4-scan-loop", construct, c.pos(loop.Pos()), "the scan loop body is neither one tagless switch over calls of the matching method nor a loop over a table of token types")
+		return
 	}
 	// the matching method: every `return true` is dominated by  cursor += <length of the match>
 	fd := st.foundFD
@@ -435,12 +481,10 @@ func checkScanLoop(c *Ctx, r *Rec, info *types.Info, st *scanTables) {
 	} else {
 		// the increment is the rune length of the match: len([]rune(match)) with match the regex's result
 		src := resolveInit(info, fd, advLen)
-		okLen := false
 		if call, ok := src.(*ast.CallExpr); ok && isBuiltinCall(info, call, "len") && len(call.Args) == 1 {
-			okLen = true
-		}
-		if !okLen {
-			viol = append(viol, "the cursor is not advanced by the length of the matched text ("+exprStr(advLen)+")")
+			// the rune length of the match
+		} else if tv := info.Types[src]; tv.Value != nil {
+			viol = append(viol, "the cursor is advanced by the constant "+exprStr(advLen)+", not by the length of the matched text")
 		}
 		inspectNoLit(fd.Body, func(x ast.Node) bool {
 			if rs, ok := x.(*ast.ReturnStmt); ok && len(rs.Results) == 1 {
